@@ -627,8 +627,10 @@ void run_PODResizeableArray(Case& c) {
   bool alias    = c.rng.below(48) == 0;
   unsigned nops = c.pickOps();
   std::string cfg = std::string(isInt ? "int" : "pod") + (alias ? "|alias" : "");
-  c.begin("PODResizeableArray", cfg,
-          J().kv("elem", isInt ? "int" : "pod").kv("push_back_of_own_element", alias).kv("nops", nops));
+  if (!c.begin("PODResizeableArray", cfg,
+          J().kv("elem", isInt ? "int" : "pod").kv("push_back_of_own_element", alias).kv("nops", nops),
+               alias ? "alias" : ""))
+    return;
   if (isInt)
     podT<int>(c, alias, nops);
   else
@@ -640,7 +642,8 @@ void run_LazyArray(Case& c) {
   bool tracked  = c.rng.below(3) != 0;
   unsigned nops = c.pickOps();
   std::string cfg = "n" + std::to_string(n) + (tracked ? "|tracked" : "|pod");
-  c.begin("LazyArray", cfg, J().kv("size", n).kv("elem", tracked ? "tracked" : "pod").kv("nops", nops));
+  if (!c.begin("LazyArray", cfg, J().kv("size", n).kv("elem", tracked ? "tracked" : "pod").kv("nops", nops)))
+    return;
   if (tracked)
     lazyArrayN<Tracked>(c, n, nops);
   else
@@ -650,7 +653,8 @@ void run_LazyArray(Case& c) {
 void run_LazyObject(Case& c) {
   bool tracked  = c.rng.below(3) != 0;
   unsigned nops = c.pickOps();
-  c.begin("LazyObject", tracked ? "tracked" : "pod", J().kv("elem", tracked ? "tracked" : "pod").kv("nops", nops));
+  if (!c.begin("LazyObject", tracked ? "tracked" : "pod", J().kv("elem", tracked ? "tracked" : "pod").kv("nops", nops)))
+    return;
   if (tracked)
     lazyObjectT<Tracked>(c, nops);
   else
@@ -660,7 +664,8 @@ void run_LazyObject(Case& c) {
 void run_optional(Case& c) {
   bool tracked  = c.rng.below(3) != 0;
   unsigned nops = c.pickOps();
-  c.begin("optional", tracked ? "tracked" : "pod", J().kv("elem", tracked ? "tracked" : "pod").kv("nops", nops));
+  if (!c.begin("optional", tracked ? "tracked" : "pod", J().kv("elem", tracked ? "tracked" : "pod").kv("nops", nops)))
+    return;
   if (tracked)
     optionalT<Tracked>(c, nops);
   else
@@ -672,7 +677,8 @@ void run_LargeArray(Case& c) {
   unsigned n    = 1 + (unsigned)c.rng.below(c.rng.below(2) ? 12 : 300);
   unsigned nops = std::min(c.pickOps(), 40u);
   std::string cfg = std::string(tracked ? "tracked" : "pod");
-  c.begin("LargeArray", cfg, J().kv("elem", tracked ? "tracked" : "pod").kv("initial_size", n).kv("nops", nops));
+  if (!c.begin("LargeArray", cfg, J().kv("elem", tracked ? "tracked" : "pod").kv("initial_size", n).kv("nops", nops)))
+    return;
   if (tracked)
     largeArrayT<Tracked>(c, n, nops);
   else
@@ -681,7 +687,8 @@ void run_LargeArray(Case& c) {
 
 void run_CopyableTuple(Case& c) {
   unsigned nops = c.pickOps();
-  c.begin("CopyableTuple", "pair+triple", J().kv("nops", nops));
+  if (!c.begin("CopyableTuple", "pair+triple", J().kv("nops", nops)))
+    return;
   typedef galois::Pair<int, long> P;
   typedef galois::TupleOfThree<short, int, long> T3;
   static_assert(std::is_trivially_copyable<P>::value && std::is_trivially_copyable<T3>::value,
